@@ -287,6 +287,9 @@ def rule_activation_balance(ctx, idx, mir, rid="R05.1"):
         f = idx.one(nm, owner="HandlerVec")
         ops = sorted((n["left"].get("s") or "").replace(" ", "") for n in walk(f.node["body"]) if n.get("k") == "Binary" and n["op"] in ("+=", "-="))
         r.inst("HandlerVec::" + nm, sample={"updates": ops})
+        cond = [(n2["left"].get("s") or "").replace(" ", "") for n2, p2 in walk_path(f.node["body"]) if n2.get("k") == "Binary" and n2["op"] in ("+=", "-=") and enclosing_ifs(p2)]
+        if cond:
+            r.violate("HandlerVec::" + nm + "|unconditional", f"HandlerVec::{nm} updates {cond} only under a condition: every inc_user_count adds one to the item and to the total, so every dec_user_count must take one from both, or has_active() stays true for the rest of the document (capture flags never clear)", "src/rewriter/handlers_dispatcher.rs")
         if ops != ["item.user_count", "self.user_count"]:
             r.violate("HandlerVec::" + nm, f"HandlerVec::{nm} updates {ops}; the per-item count and the total must move together (has_active decides which tokens are captured)", "src/rewriter/handlers_dispatcher.rs")
 
